@@ -132,6 +132,28 @@ def cfgStep (c : Cfg) (ws : List String) : Option Cfg :=
     match url?, st? with
     | some u, some st => some { c with flows := c.flows ++ [{ name := pctDec n, url := u, status := st }] }
     | _, _ => none
+  | "rflow" :: n :: tmpl :: opts =>
+    -- a flow over REAL processors (harness template): each real processor is an abstract processor with one
+    -- unnamed output; only transactions with arbitrary content (`rtxn`) are run against such flows
+    let gS : XEnd := .stream "globalStream" "start"
+    let gE : XEnd := .stream "globalStream" "end"
+    let through : List XConn := [⟨gS, .proc "R" ""⟩, ⟨.proc "R" "", gE⟩]
+    let body? : Option (List PInst × List XConn × List XConn) :=
+      if tmpl == "transform-set" || tmpl == "transform-delete" then some ([⟨"R", "@real", []⟩], through, through)
+      else if tmpl == "sanitize" then some ([⟨"R", "@real", []⟩], through, [⟨gS, gE⟩])
+      else if tmpl == "generate" then
+        some ([⟨"T", "@real", []⟩, ⟨"R", "@real", []⟩], [⟨gS, .proc "T" ""⟩, ⟨.proc "T" "", .proc "R" ""⟩],
+              [⟨.proc "R" "", gE⟩])
+      else none
+    let url? : Option String := match opts with
+      | [] => some "verif.test/x"
+      | [u] => (kv [u] "url").bind fun v => if v == "-" then none else some (pctDec v)
+      | _ => none
+    match body?, url? with
+    | some (procs, rq, rs), some u =>
+      some { c with pdefs := c.pdefs ++ [⟨"@real", [⟨"", "any"⟩], []⟩]
+                    flows := c.flows ++ [{ name := pctDec n, url := some u, procs := procs, req := rq, res := rs }] }
+    | _, _ => none
   | ["connnull", f, d] =>
     match parseDir d with
     | some .req => updFlow c (pctDec f) fun r => { r with req := r.req ++ [⟨.nothing, .nothing⟩] }
